@@ -123,7 +123,7 @@ func cmdRun(args []string) {
 	fs.Parse(args)
 
 	t0 := time.Now()
-	n := 300
+	n := 500
 	if *tier == "thorough" {
 		n = 12000
 	}
